@@ -145,6 +145,9 @@ def genBound (marker : Nat) : Gen (Option (List BoundArg)) := do
     -- several bare types in one list; `..` in the middle of a list
     (1, some [.ty tyT, .ty (Ty.app "Vec" [tyT]), .ty (Ty.simple "u8"), .ty (Ty.app "Option" [tyT])]),
     (1, some [.ty tyT, .dots, .pred (markerPred marker)]),
+    -- several predicates in one list (their order is kept)
+    (1, some [.pred (markerPred marker), .pred (.ty [] (Ty.app "Vec" [tyT]) [.trait false [] (Ty.simple "W1")]), .pred (.lt "'a" ["'static"])]),
+    (1, some [.pred (.ty [] (Ty.app "Option" [tyT]) [.trait false [] (Ty.simple "W1")]), .ty tyT, .pred (markerPred marker), .dots]),
     (1, some [.pred (.lt "'a" ["'static"])]),
     (1, some [.pred (.ty ["'x"] (.ref (some "'x") false tyT) [.trait false [] (Ty.simple ("M" ++ toString marker))])])]
 
@@ -433,7 +436,12 @@ def genLevelDeriveEx (cfg : GCfg) (traits : List String) (marker : Nat) : Gen (L
   let b1 ← genBound (marker + 1)
   let b2 ← if ← chance 1 3 then genBound (marker + 2) else pure none
   let withArgs ← chance 3 4
-  pure [.deriveEx { items := [{ trait_ := t, args := if withArgs then some (b1, false) else none }], bound := b2 }]
+  let first : Attr := .deriveEx { items := [{ trait_ := t, args := if withArgs then some (b1, false) else none }], bound := b2 }
+  -- now and then a second list for the same trait with other bounds (the later one wins)
+  if ← chance 1 6 then
+    let b3 ← genBound (marker + 3)
+    pure [first, .deriveEx { items := [{ trait_ := t, args := some (b3, false) }] }]
+  else pure [first]
 
 /-- now and then one of the attributes twice (`#[x] was specified twice`; for `derive_ex` the later one wins) -/
 def genDup (cfg : GCfg) (own : List Attr) : Gen (List Attr) := do
